@@ -139,6 +139,32 @@ def run_subject(spec, root, hashseed=0, timeout=120, seg='0', aslr_off=True):
     return res
 
 
+def run_history(case, root, inv=(), extra=None, timeout=110):
+    """execute case['ops'] on scratch root; host_restart ops split the history
+    into successive fresh interpreters sharing root (world + pickle cache).
+    returns (events, failed SubjectResult or None)"""
+    ops = case['ops']
+    cuts = [i for i, o in enumerate(ops) if o['op'] == 'host_restart'] + [len(ops)]
+    events = []
+    start = 0
+    seg = 0
+    for cut in cuts:
+        if cut > start:
+            spec = {'init': case.get('init') or [], 'ops': ops, 'start': start, 'end': cut, 'inv': list(inv),
+                    'faults': case.get('faults') or [], 'gc_auto': case.get('gc_auto', False)}
+            if extra:
+                spec.update(extra)
+            r = run_subject(spec, root, hashseed=case.get('hashseed', 0), timeout=timeout, seg=str(seg))
+            if not r.complete:
+                return events + r.events, r
+            events += r.events
+        if cut < len(ops):
+            events.append({'i': cut, 'op': 'host_restart', 'res': 'ok'})
+        start = cut + 1
+        seg += 1
+    return events, None
+
+
 def events_digest(events):
     h = hashlib.sha256()
     for ev in events:
